@@ -20,6 +20,9 @@ use crate::{
 
 #[derive(Debug, Clone, Copy, Serialize, Deserialize, PartialEq, Eq)]
 enum Position {
+    /// request issued right after the policy admitted the connection (it knows the connection
+    /// id from `on_connect`), before the confirmation frame is written
+    DuringAdmission,
     /// request issued while the connection is admitted but not yet registered
     Window,
     AfterRegistration,
@@ -90,17 +93,29 @@ fn run_case(c: &Case) -> Outcome {
         let mut older = if c.older { Some(must_connect(&relay, TARGET).await) } else { None };
         let target_id = memrelay::pool_key(TARGET).public();
 
-        // connect the target, possibly holding it in the admission->registration window
-        let armed = (c.position == Position::Window).then(|| hooks::arm_async("relay:accept:after_admission"));
-        let mut target = match raw_connect_opts(relay.addr, TARGET, AbortAt::Never, false, c.position != Position::Window).await {
-            RawOutcome::Connected(t) => t,
-            _ => { eprintln!("C08 harness: target connect failed"); std::process::exit(2) }
+        // connect the target (as a task), possibly holding it at one of the two pause points
+        let held = matches!(c.position, Position::Window | Position::DuringAdmission);
+        let armed = match c.position {
+            Position::Window => Some(hooks::arm_async("relay:accept:after_admission")),
+            Position::DuringAdmission => Some(hooks::arm_async("relay:handshake:after_on_connect")),
+            _ => None,
         };
+        let addr = relay.addr;
+        let connect = tokio::spawn(async move { raw_connect_opts(addr, TARGET, AbortAt::Never, false, !held).await });
         let mut release = None;
         if let Some(a) = armed {
             match tokio::time::timeout(Duration::from_secs(30), a.reached).await {
                 Ok(Ok(_detail)) => release = Some(a.release),
                 _ => { eprintln!("C08 harness: pause point not reached"); std::process::exit(2) }
+            }
+        }
+        let mut connect = Some(connect);
+        let mut target_opt: Option<RawClient> = None;
+        if c.position != Position::DuringAdmission {
+            // the client is confirmed before (Window) or independently of the request
+            match connect.take().unwrap().await {
+                Ok(RawOutcome::Connected(t)) => target_opt = Some(t),
+                _ => { eprintln!("C08 harness: target connect failed"); std::process::exit(2) }
             }
         }
         // the connection id the policy saw at admission
@@ -111,7 +126,7 @@ fn run_case(c: &Case) -> Outcome {
             // and from here on "target" denotes the revoked (older) connection
             let first = rec.events.lock().unwrap().iter().find_map(|e| match e { Ev::Connect { ep, conn, allow: true } if *ep == target_id => Some(*conn), _ => None });
             conn_id = first.unwrap_or(conn_id);
-            let newer = std::mem::replace(&mut target, older.take().expect("older sibling"));
+            let newer = std::mem::replace(target_opt.as_mut().expect("target"), older.take().expect("older sibling"));
             older = Some(newer);
         }
         if let Some(o) = older.as_mut() {
@@ -121,7 +136,7 @@ fn run_case(c: &Case) -> Outcome {
         if c.position == Position::AfterTraffic {
             sender.send(memrelay::encode_c2r_datagram(target_id.as_bytes(), &probe(1), None)).await;
             // traffic goes to the endpoint's newest connection (held in `older` after the swap)
-            let active = if c.revoke_older { older.as_mut().expect("sibling") } else { &mut target };
+            let active = if c.revoke_older { older.as_mut().expect("sibling") } else { target_opt.as_mut().expect("target") };
             match receives(active, 1, PROBE_WAIT).await {
                 Ok(true) => {}
                 _ => { eprintln!("C08 harness: pre-revocation traffic not delivered"); std::process::exit(2) }
@@ -131,6 +146,19 @@ fn run_case(c: &Case) -> Outcome {
         // the revocation request
         let found = clients.disconnect(target_id, if c.by_conn { Some(conn_id) } else { None });
         if let Some(r) = release.take() { let _ = r.send(()); }
+        if let Some(task) = connect.take() {
+            match task.await {
+                Ok(RawOutcome::Connected(t)) => target_opt = Some(t),
+                // the relay may also refuse or drop the connection instead of confirming it
+                Ok(_) => {
+                    drop(older); drop(bystander); drop(sender);
+                    relay.shutdown().await; hooks::clear();
+                    return Outcome::pass_with(true, vec!["never-confirmed"]);
+                }
+                Err(_) => { eprintln!("C08 harness: connect task failed"); std::process::exit(2) }
+            }
+        }
+        let mut target = target_opt.take().expect("target client");
 
         // 1. the revoked connection's stream ends
         let ended = {
@@ -141,7 +169,7 @@ fn run_case(c: &Case) -> Outcome {
                 match target.recv(left).await { Err(true) => break true, Err(false) => break false, Ok(_) => continue }
             }
         };
-        let sig = if c.position == Position::Window { "C08:disconnect-before-register" } else { "C08:revoked-still-served" };
+        let sig = if held { "C08:disconnect-before-register" } else { "C08:revoked-still-served" };
         let mut verdict = None;
         if !ended {
             // 2. is it still served?  a datagram to its id must not arrive on it, and what it
@@ -180,7 +208,7 @@ fn run_case(c: &Case) -> Outcome {
         drop(sender);
         relay.shutdown().await;
         hooks::clear();
-        verdict.unwrap_or_else(|| Outcome::pass_with(c.position == Position::Window, vec![if ended { "stream-ended" } else { "not-ended-not-served" }]))
+        verdict.unwrap_or_else(|| Outcome::pass_with(held, vec![if ended { "stream-ended" } else { "not-ended-not-served" }]))
     })
 }
 
@@ -190,11 +218,11 @@ pub fn run(ctx: &Ctx) {
     let reps = ctx.tier.pick(2u8, 8);
     let mut cases = vec![];
     for rep in 0..reps {
-        for position in [Position::Window, Position::AfterRegistration, Position::AfterTraffic] {
+        for position in [Position::DuringAdmission, Position::Window, Position::AfterRegistration, Position::AfterTraffic] {
             for by_conn in [false, true] {
                 for older in [false, true] {
                     cases.push(Case { position, by_conn, older, revoke_older: false, rep });
-                    if by_conn && older && position != Position::Window {
+                    if by_conn && older && !matches!(position, Position::Window | Position::DuringAdmission) {
                         cases.push(Case { position, by_conn, older, revoke_older: true, rep });
                     }
                 }
